@@ -411,7 +411,7 @@ def token_level(ck, rng, thorough):
             elif kind == "other":
                 toks.insert(rng.randint(0, len(toks)), ("other", ""))
             elif kind == "op":
-                toks.insert(rng.randint(0, len(toks)), ("op", rng.choice(["<", "=", ",", "+/-", "[", "unary", "<none>", ""])))
+                toks.insert(rng.randint(0, len(toks)), ("op", rng.choice(["<", "=", ",", "+/-", "[", "unary", "<none>", "@"])))
         tail = END
         kind2 = rng.random()
         if kind2 < 0.08:
@@ -445,13 +445,26 @@ def run(ck):
         "no-execution clause on the real code: static scan (T2) + audit-hook fuzz stream, a test",
         "error outcomes are compared by exception class, never by message",
     ]
+    import time
+    timing = {}
+    t0 = time.time()
     ok = ck.coq_build(["Properties/C07.vo", "Model/EvalRun.vo"])
+    timing["coq_build_s"] = round(time.time() - t0, 1)
+    t0 = time.time()
     cases, meta, oracle_fail = token_level(ck, rng, thorough)
+    timing["token_level_impl_s"] = round(time.time() - t0, 1)
     from . import c07_strings
+    t0 = time.time()
     oracle_fail += c07_strings.string_level(ck, rng, thorough)
+    timing["string_level_s"] = round(time.time() - t0, 1)
+    t0 = time.time()
     oracle_fail += c07_strings.no_execution(ck, rng, thorough)
+    timing["no_execution_s"] = round(time.time() - t0, 1)
 
+    t0 = time.time()
     bad = ck.coq_mismatches("c07", HEADER, cases, RUN, shard=1500) if ok else None
+    timing["token_level_model_s"] = round(time.time() - t0, 1)
+    ck.extra["timing"] = timing
     ck.extra["model_vs_impl_cases"] = len(cases)
     ck.extra["model_vs_impl_disagreements"] = None if bad is None else len(bad)
     seen = set()
